@@ -102,21 +102,48 @@ func (l lobe) sigma() float64 {
 
 type warp struct {
 	kind  string // "pow", "hg", "cap", "uniform"
-	alpha float64
+	alpha []float64 // pow: the exponent of the primary followed by a geometric ladder of broader lobes
+	aw    []float64 // pow: their weights (sum 1)
 	g     float64
 	ymax  float64
 	wu    float64 // share of the uniform component
 }
 
-func newWarp(l lobe, wu float64) warp {
-	w := warp{kind: l.kind, alpha: l.alpha, g: l.g, ymax: 1 - l.minCos, wu: wu}
+// newWarp builds the warp for a primary lobe.  bulk, ladder and uni are the numbers of polar bins given to
+// the primary lobe, to each rung of the ladder, and to the uniform component.
+//
+// The ladder matters for sharp cos^alpha lobes: without it the tail of the lobe (a fraction ~1/alpha of its
+// mass) lands in a sliver of v just after the lobe's own range, too narrow for any quadrature node to see
+// (measured: 0.1-0.5% of the mass went missing, undetected by the error estimate).  With rungs alpha/4,
+// alpha/16, ... every decay happens over a v range comparable to a bin.
+func newWarp(l lobe, bulk, uni int) (w warp, bins int) {
+	w = warp{kind: l.kind, g: l.g, ymax: 1 - l.minCos}
 	if l.kind == "hg" && l.g < 1e-3 {
 		w.kind = "uniform"
 	}
 	if l.kind == "delta" || l.kind == "" {
 		w.kind = "uniform"
 	}
-	return w
+	rungs := 0
+	if w.kind == "pow" {
+		w.alpha = []float64{l.alpha}
+		for a := l.alpha / 4; a > 1.5; a /= 4 {
+			w.alpha = append(w.alpha, a)
+			rungs++
+		}
+	}
+	bins = bulk + rungs + uni
+	if w.kind == "uniform" {
+		return w, bins
+	}
+	w.wu = float64(uni) / float64(bins)
+	if w.kind == "pow" {
+		w.aw = []float64{float64(bulk) / float64(bulk+rungs)}
+		for i := 0; i < rungs; i++ {
+			w.aw = append(w.aw, 1/float64(bulk+rungs))
+		}
+	}
+	return w, bins
 }
 
 func (w warp) cdfP(y float64) float64 {
@@ -125,7 +152,12 @@ func (w warp) cdfP(y float64) float64 {
 		if y >= 1 {
 			return 1
 		}
-		return -math.Expm1((w.alpha + 1) * math.Log1p(-y))
+		var s float64
+		l := math.Log1p(-y)
+		for i, a := range w.alpha {
+			s += w.aw[i] * -math.Expm1((a+1)*l)
+		}
+		return s
 	case "hg":
 		g := w.g
 		d := (1-g)*(1-g) + 2*g*y
@@ -145,10 +177,16 @@ func (w warp) pdfP(y float64) float64 {
 		if y >= 1 {
 			return 0
 		}
-		if w.alpha == 0 {
-			return 1
+		var s float64
+		l := math.Log1p(-y)
+		for i, a := range w.alpha {
+			if a == 0 {
+				s += w.aw[i]
+			} else {
+				s += w.aw[i] * (a + 1) * math.Exp(a*l)
+			}
 		}
-		return (w.alpha + 1) * math.Exp(w.alpha*math.Log1p(-y))
+		return s
 	case "hg":
 		g := w.g
 		d := (1-g)*(1-g) + 2*g*y
@@ -173,8 +211,18 @@ func (w warp) support() float64 {
 	return 0
 }
 
-func (w warp) M(y float64) float64 { return (1-w.wu)*w.cdfP(y) + w.wu*y/2 }
-func (w warp) m(y float64) float64 { return (1-w.wu)*w.pdfP(y) + w.wu/2 }
+func (w warp) M(y float64) float64 {
+	if w.kind == "uniform" {
+		return y / 2
+	}
+	return (1-w.wu)*w.cdfP(y) + w.wu*y/2
+}
+func (w warp) m(y float64) float64 {
+	if w.kind == "uniform" {
+		return 0.5
+	}
+	return (1-w.wu)*w.pdfP(y) + w.wu/2
+}
 
 // inv solves M(y) = v on [0, 2] (safeguarded Newton; M is continuous and strictly increasing).
 func (w warp) inv(v float64) float64 {
@@ -262,6 +310,9 @@ func (q *integ) eval(w kit.V3) float64 {
 	}
 	q.evals++
 	v := q.f(w)
+	if v < 0 && v > -1e-9 {
+		v = 0 // rounding noise (observed: -1e-70 from (1-|cos|)^5 with |cos| = 1+2e-16)
+	}
 	if !(v >= 0) || math.IsInf(v, 0) {
 		if !q.bad {
 			q.bad, q.badAt, q.badVal = true, w, v
@@ -342,8 +393,9 @@ type grid struct {
 	nphi   int
 }
 
-func newGrid(primary lobe, wu float64, kv, nphi int) grid {
-	g := grid{fr: newFrame(primary.axis), wp: newWarp(primary, wu), nphi: nphi}
+func newGrid(primary lobe, bulk, uni, nphi int) grid {
+	wp, kv := newWarp(primary, bulk, uni)
+	g := grid{fr: newFrame(primary.axis), wp: wp, nphi: nphi}
 	edges := []float64{}
 	for k := 0; k <= kv; k++ {
 		edges = append(edges, float64(k)/float64(kv))
